@@ -53,19 +53,38 @@ def minName : List Var → Name
   | [] => 0
   | v :: vs => vs.foldl (fun m w => if w.name < m then w.name else m) v.name
 
+/-- a Python tuple as a token list -/
+def tup (l : List Tok) : List Tok := .opn :: l ++ [.close]
+
+/-- `_variable_total_key(v)`: `(name, -1 | 0 | 1, isinstance(v, Intervention), ((i.name, i.star), …))` -/
+def varKey (v : Var) : List Tok :=
+  tup ([.str v.name, .int (match v.star with | none => 0 | some false => 1 | some true => 2),
+        .int (if v.isIv then 1 else 0)] ++
+       tup (v.ivs.flatMap fun i => tup [.str i.name, .int (if i.star then 1 else 0)]))
+
+def varsKey (vs : List Var) : List Tok := tup (vs.flatMap varKey)
+
+/-- the integer tags `-5, -1, 0, 1, 2, 3, 4` of the keys, shifted to naturals -/
+def tagQ : Tok := .int 0
+def tagPP : Tok := .int 4
+
 mutual
-/-- `Expression._get_key()` -/
+/-- `Expression._get_key()` (after `fix:` 1603f97: total keys) -/
 def keyOf : Expr → List Tok
-  | .prob _ c _ => [.int 0, .str (match c with | [] => 0 | v :: _ => v.name)]   -- (0, children[0].name)
-  | .sum e _ => .int 1 :: keyOf e                                               -- (1, *inner)
-  | .prod fs => .int 2 :: keysOf fs                                             -- (2, *inner_keys)
-  | .frac n d => .int 3 :: (.opn :: keyOf n ++ [.close]) ++ (.opn :: keyOf d ++ [.close])
-  | .one => [.int 4, .int 1]                                                    -- (4, "1")
-  | .zero => [.int 4, .int 0]                                                   -- (4, "0")
-  | .q dom cod => [.close, .str (minName dom), .str (minName cod)]              -- (-5, …): before everything
+  -- Probability: (0, children[0].name, children keys, parents keys)
+  | .prob none c p => [.int 5, .str (match c with | [] => 0 | v :: _ => v.name)] ++ varsKey c ++ varsKey p
+  -- PopulationProbability: (-1, key(population), children[0].name, children keys, parents keys)
+  | .prob (some pop) c p =>
+      [tagPP] ++ varKey pop ++ [.str (match c with | [] => 0 | v :: _ => v.name)] ++ varsKey c ++ varsKey p
+  | .sum e r => .int 6 :: tup (keyOf e) ++ varsKey r                              -- (1, inner, ranges)
+  | .prod fs => .int 7 :: keysOf fs                                               -- (2, *inner_keys)
+  | .frac n d => .int 8 :: tup (keyOf n) ++ tup (keyOf d)                         -- (3, num, den)
+  | .one => [.int 9, .int 1]                                                      -- (4, "1")
+  | .zero => [.int 9, .int 0]                                                     -- (4, "0")
+  | .q dom cod => [tagQ, .str (minName dom), .str (minName cod)] ++ varsKey dom ++ varsKey cod   -- (-5, …)
 def keysOf : List Expr → List Tok
   | [] => []
-  | e :: es => (.opn :: keyOf e ++ [.close]) ++ keysOf es
+  | e :: es => tup (keyOf e) ++ keysOf es
 end
 
 /-- `Expression.__lt__` -/
